@@ -667,6 +667,77 @@ def d7_filter_iff_successor(chk: Check, rid: str = "C09-D7") -> None:
                                  "the last segment filters by nothing"))
 
 
+def d8_null_is_a_value(chk: Check) -> None:
+    """`None` is what an optional query without a default passes for the
+    value to create -- and it is also the legitimate value *null*
+    (`set_value(path, None)`, `default_value=None`).  The creation arms
+    therefore never decide on the supplied value: a guard that leaves when
+    it is None makes `set_value("a.b", None)` on a missing `b` a silent
+    no-op."""
+    prog = chk.prog
+    chk.rule("C09-D8", "no return / continue / break in the optional-match "
+             "driver stands under a test of the supplied value", floor=1)
+    fi = prog.func("Processor._get_optional_nodes")
+    value = fi.params()[3] if len(fi.params()) > 3 else "value"
+    n = 0
+    bad = []
+    for j in walk_local(fi.node):
+        if not isinstance(j, (ast.Return, ast.Continue, ast.Break)):
+            continue
+        n += 1
+        for f in facts_at(j):
+            if f.kind == "cond" and any(
+                    isinstance(x, ast.Name) and x.id == value
+                    for x in ast.walk(f.expr)):
+                bad.append((j, f))
+    if bad:
+        j, f = bad[0]
+        chk.fail("C09-D8", fi, j, "jump under `{}`".format(src(f.expr)[:40]),
+                 "the driver gives up creating the missing tail for some "
+                 "supplied values: null is a value like any other, so "
+                 "`set_value(path, None)` and `default_value=None` must "
+                 "create the path and store null")
+    else:
+        chk.ok("C09-D8", fi, fi.node, "{} jump statement(s)".format(n),
+               "none depends on the supplied value")
+
+
+def d9_container_kind_from_segment_type(chk: Check) -> None:
+    """When a missing parent has to be created, its kind follows from the
+    *type* of the next segment alone: an INDEX segment calls for an Array,
+    a KEY segment for a Hash.  Looking at the text of a KEY segment ("a
+    number, so probably an index") makes `releases.2024.notes` below a
+    missing `releases` build a 2025-element Array, and gives the same tail
+    another shape depending on whether its parent existed."""
+    prog = chk.prog
+    chk.rule("C09-D9", "Nodes.build_next_node reads only the type of the "
+             "next segment (never its attributes)", floor=1)
+    fi = prog.func("Nodes.build_next_node")
+    reads = []
+    for n in walk_local(fi.node):
+        if isinstance(n, ast.Subscript) and isinstance(n.value, ast.Subscript) \
+                and src(n.slice) == "1":
+            reads.append(n)
+        if isinstance(n, ast.Assign) and isinstance(n.targets[0], ast.Tuple) \
+                and isinstance(n.value, ast.Subscript) and \
+                len(n.targets[0].elts) == 2:
+            second = n.targets[0].elts[1]
+            if isinstance(second, ast.Name) and any(
+                    isinstance(x, ast.Name) and x.id == second.id and
+                    isinstance(x.ctx, ast.Load) for x in walk_local(fi.node)):
+                reads.append(n)
+    if reads:
+        chk.fail("C09-D9", fi, reads[0], "build_next_node: `{}`".format(
+            src(reads[0])[:50]),
+            "the attributes of the next segment take part in choosing the "
+            "container kind: a KEY segment whose text looks like a number "
+            "creates an Array (padded up to that number) instead of a Hash "
+            "with that key")
+    else:
+        chk.ok("C09-D9", fi, fi.node, "build_next_node", "decides on the "
+               "segment type alone")
+
+
 def run(chk: Check) -> None:
     prog = chk.prog
     cl = read_closure(prog)
@@ -683,6 +754,8 @@ def run(chk: Check) -> None:
     d5_text_as_supplied(chk)
     d6_set_members_by_value(chk)
     d7_filter_iff_successor(chk)
+    d8_null_is_a_value(chk)
+    d9_container_kind_from_segment_type(chk)
     from rules.c06 import falsy_rule
     falsy_rule(chk, "C09-D4", "yamlpath/processor.py", 30,
                doc_exprs={"self.data", "<.node>"})
